@@ -35,7 +35,7 @@ GRAMMAR = {
     'comment': ['!', '!foo', '! a comment', '!LO:TX:a', '!!', '!!!COM: x'],
 }
 
-FREE_TEXT = ['la', 'Ky-', '-ri-', '-e', 'e', 'f', 'p', 'ff', 'pp', 'mf', 'sfz', 'cresc.', 'dim.', '<', '>', '(', ')', '[', ']',
+FREE_TEXT = [' ', '  ', '\u00a0', '\u3000', ' la ', 'la', 'Ky-', '-ri-', '-e', 'e', 'f', 'p', 'ff', 'pp', 'mf', 'sfz', 'cresc.', 'dim.', '<', '>', '(', ')', '[', ']',
              'C7', 'Dm', 'G7/B', 'I', 'V7', 'ii6', '1', '2', '5', '1 2', '23', 'lo-', 'rem', 'do', 're', 'mi', 'a', 'b', 'r',
              'A-men', "l'a", 'ça', 'niño', 'Über', '日本', 'x y z', 'a,b', '"q"', "it's", '4', '4c', 'cc', '&', '%', '@', 'a@b', 'a·b',
              '·', '*foo', '**', '**bar', '=x', '=1x', '4c%%', '4zz', '*clefG9', 'Z', 'zz', '\\', '/', '#', '-', '--', '?', '??', '_']
